@@ -1,6 +1,7 @@
 package main
 
 import (
+	"time"
 	"fmt"
 	"math/big"
 	"strings"
@@ -10,6 +11,8 @@ import (
 	sdk "github.com/cosmos/cosmos-sdk/types"
 
 	"github.com/NibiruChain/nibiru/v2/x/common/denoms"
+	"github.com/NibiruChain/nibiru/v2/x/epochs"
+	epochstypes "github.com/NibiruChain/nibiru/v2/x/epochs/types"
 	"github.com/NibiruChain/nibiru/v2/x/common/testutil/testapp"
 	inflationtypes "github.com/NibiruChain/nibiru/v2/x/inflation/types"
 
@@ -190,8 +193,23 @@ func runInflation(r *hx.R, n int, w *hx.W, _ []string) error {
 				fee0 := nibiru.BankKeeper.GetBalance(ctx, feeAddr, denoms.NIBI).Amount
 				root0 := nibiru.BankKeeper.GetBalance(ctx, root, denoms.NIBI).Amount
 				cp0 := nibiru.DistrKeeper.GetFeePool(ctx).CommunityPool.AmountOf(denoms.NIBI)
+				viaEpochs := r.Chance(1, 3)
 				res := hx.Recover(func() string {
-					k.Hooks().AfterEpochEnd(ctx, "day", epoch)
+					if viaEpochs {
+						// through the real epochs module: the day epoch number `epoch` is about to end (counting started, a day and an
+						// hour have passed since it began); its BeginBlocker ends it and calls the registered hooks with that number
+						ek := nibiru.EpochsKeeper
+						for _, e := range ek.AllEpochInfos(ctx) {
+							_ = ek.DeleteEpochInfo(ctx, e.Identifier)
+						}
+						now := ctx.BlockTime()
+						ek.Epochs.Insert(ctx, "day", epochstypes.EpochInfo{Identifier: "day", StartTime: now.Add(-1000 * time.Hour), Duration: 24 * time.Hour,
+							CurrentEpoch: epoch, CurrentEpochStartTime: now.Add(-25 * time.Hour), EpochCountingStarted: true,
+							CurrentEpochStartHeight: ctx.BlockHeight()})
+						epochs.BeginBlocker(ctx, *ek)
+					} else {
+						k.Hooks().AfterEpochEnd(ctx, "day", epoch)
+					}
 					supply1 := nibiru.BankKeeper.GetSupply(ctx, denoms.NIBI).Amount
 					fee1 := nibiru.BankKeeper.GetBalance(ctx, feeAddr, denoms.NIBI).Amount
 					root1 := nibiru.BankKeeper.GetBalance(ctx, root, denoms.NIBI).Amount
